@@ -23,7 +23,7 @@ func checkC10(P *Prog, r *Result) {
 	P.checkAddShape(r)
 	P.checkKeyedByOwnPath(r)
 	P.checkSegmentSource(r)
-	P.checkTagPriority(r)
+	P.checkTagPriority(r, "C10/tag-priority")
 	P.checkProviderTagTable(r)
 	P.checkIssuePathLast(r)
 	P.checkPathWriters(r)
@@ -357,7 +357,7 @@ func valueDerivesFrom(v, x ssa.Value, depth int) bool {
 	return false
 }
 
-func (P *Prog) checkTagPriority(r *Result) {
+func (P *Prog) checkTagPriority(r *Result, rule string) {
 	fn := P.fn("zog/internals.GetKeyFromField")
 	if fn == nil {
 		r.broken("anchor GetKeyFromField not found")
@@ -389,12 +389,12 @@ func (P *Prog) checkTagPriority(r *Result) {
 	wantS = strings.ReplaceAll(wantS, "ctx ", "tag ")
 	wantS = strings.ReplaceAll(wantS, "(ctx", "(tag")
 	if gs2 == wantS {
-		r.ok("C10/tag-priority", fname(fn), P.pos(fn.Pos()), "source tag (if the provider has one), then zog tag, then schema key")
+		r.ok(rule, fname(fn), P.pos(fn.Pos()), "source tag (if the provider has one), then zog tag, then schema key")
 	} else {
-		r.bad("C10/tag-priority", fname(fn), P.pos(fn.Pos()), "key resolution is not: source-specific tag, else `zog` tag, else schema key", "expected:\n"+wantS, "found:\n"+gs2)
+		r.bad(rule, fname(fn), P.pos(fn.Pos()), "key resolution is not: source-specific tag, else `zog` tag, else schema key", "expected:\n"+wantS, "found:\n"+gs2)
 	}
 	_ = gs
-	r.floor("C10/tag-priority", 1)
+	r.floor(rule, 1)
 }
 
 // renderPathsNamed renders a function's return paths with parameters printed
@@ -722,7 +722,7 @@ func (P *Prog) checkIssuePathLast(r *Result) {
 		}
 		// the user formatter (which may also touch the path) must run before the override
 		eachInstr(fn, func(_ *ssa.BasicBlock, _ int, in ssa.Instruction) {
-			if ci := callOf(in); ci != nil && ci.dynamic && instrBefore(override, in) {
+			if ci := callOf(in); ci != nil && ci.dynamic && (instrBefore(override, in) || reachFromSuccs(override.Block(), nil)[in.Block()]) {
 				problems = append(problems, "a formatter runs after the IssuePath override and could replace the path")
 			}
 		})
